@@ -369,6 +369,14 @@ theorem C11_ids_in_range (hash : Image → UInt64) (img : Image) (row col : Nat)
   unfold idOf imageId placementId KITTY_MAX_ID
   omega
 
+/-- **C11_quiet_keeps_record.** Switching a handler to quiet at any point of a history keeps its record of
+transmitted images, hence the invariant behind `C11_once` (every later event is judged as if no switch
+had happened; only the `q=` flag of later commands differs). -/
+theorem C11_quiet_keeps_record (hash : Image → UInt64) (S : List Image) (h : Handler) (m : Mon) :
+    h.quiet.imgs = h.imgs ∧ (∀ id, h.quiet.contains id = h.contains id) ∧
+    (Inv hash S h m → Inv hash S h.quiet m) :=
+  ⟨rfl, fun _ => rfl, fun inv => ⟨inv.live, inv.imgs, inv.placed⟩⟩
+
 /-- placement ids are injective on the domain -/
 theorem C11_placement_injective {row col row' col' : Nat} (h : Dom row col) (h' : Dom row' col')
     (e : placementId row col = placementId row' col') : row = row' ∧ col = col' :=
